@@ -284,6 +284,17 @@ theorem c20_src_channel_keys {W : Type} (P : Prims W) (L : ChannelLaws P) (a b i
   ⟨AdnlChannel_init_eq P, Client_init_eq P, Server_init_eq P, get_key_aes_id_eq P,
     _, _, srcChan_eq P a b ida idb, srcChan_eq P b a idb ida, c20_channel_keys P L a b ida idb⟩
 
+/-- CLIENT-SIDE KEY IDS of the regenerated code (ciphers.py `Crypto.get_key_id` / `Crypto.get_aes_key_id`, inherited by `Client`): for
+every client record they never raise, `get_key_id() = H(c6b41348 ‖ ed25519_public)` and `get_aes_key_id() = H(d4adbc2d ‖ ed25519_private)`
+— the latter is `get_key_aes_id` applied to the seed, i.e. the same function the channel uses for its two key ids. -/
+theorem c20_src_client_ids {W : Type} (P : Prims W) (c : Client) :
+    Crypto_get_key_id_obj P c = some (P.H (magicKey ++ c.edPub)) ∧
+    Crypto_get_aes_key_id_obj P c = some (P.H (magicAes ++ c.edPriv)) ∧
+    Crypto_get_aes_key_id_obj P c = get_key_aes_id P c.edPriv :=
+  ⟨get_key_id_eq P c, get_aes_key_id_eq P c, by rw [get_aes_key_id_eq, get_key_aes_id_eq]⟩
+
+example : Crypto_get_aes_key_id_obj toy (Client.new toy [3, 1]) = some (toy.H ([0xd4, 0xad, 0xbc, 0x2d] ++ [3, 1])) := by decide +kernel
+
 /-- CHANNEL SYMMETRY of the regenerated code: the channel objects `A` (opened by `a` towards `b`) and `B` (by `b` towards `a`) are
 built by the regenerated constructors for ANY ids; the regenerated `A.encrypt(m)` returns `B.server_aes_key_id ‖ H(m) ‖ body` with
 `len(body) = len(m)` and the regenerated `B.decrypt(body, H(m))` returns `m`; and the same with `A` and `B` exchanged. -/
